@@ -6,6 +6,8 @@
 //   C07 races (races=1)
 #include "common.h"
 
+#include <new>
+
 #include <gmlc/libguarded/rcu_guarded.hpp>
 #include <gmlc/libguarded/rcu_list.hpp>
 
@@ -54,6 +56,11 @@ struct Oracle {
     std::map<const void*, int> blocks;
     std::map<const void*, size_t> block_size;
     long allocs = 0, deallocs = 0, constructs = 0, destroys = 0;
+    // fault: the allocator handed to the list throws std::bad_alloc (param oom=1).  Once
+    // that has happened the membership / order history of the run is no longer checked
+    // (an operation that failed may or may not count); exactly-once destruction, leak
+    // freedom and memory safety are checked as always.
+    bool oom_enabled = false, oom_hit = false;
     long null_destroys = 0;
     bool strict_alloc = false;  // C13: null destroy is a violation
     std::vector<Traversal> travs;
@@ -156,6 +163,21 @@ struct TrackAlloc {
     }
     T* allocate(std::size_t n)
     {
+        {
+            bool on;
+            {
+                gsim::Oracle o;
+                on = O && O->oom_enabled;
+            }
+            if (on && gsim::fault_fires(gsim::F_ALLOC_FAIL)) {
+                {
+                    gsim::Oracle o;
+                    O->oom_hit = true;
+                }
+                gsim::probe("rcu.allocation_failed");
+                throw std::bad_alloc();
+            }
+        }
         T* p = static_cast<T*>(::operator new(n * sizeof(T)));
         gsim::Oracle o;
         O->blocks[p] = 1;
@@ -490,8 +512,17 @@ struct WL {
             bool unwind = (op.c & 8) != 0 && op.code != OP_EMPLACE_THROW &&
                 op.code != OP_HOLD_TRAVERSE && op.code != OP_HOLD_BLIP;
             op.c &= 7;
-            if (unwind) wl::run_in_unwind([&] { run_op(op, t, i); });
-            else run_op(op, t, i);
+            int held = gsim::held_exclusive();
+            try {
+                if (unwind) wl::run_in_unwind([&] { run_op(op, t, i); });
+                else run_op(op, t, i);
+            }
+            catch (const std::bad_alloc&) {
+                // only ever thrown by the injected allocator fault
+                if (gsim::held_exclusive() != held)
+                    gsim::fail("lock_leaked_on_throw", "an operation failed with bad_alloc and left "
+                               "the write mutex locked");
+            }
         }
     }
     struct Body {
@@ -698,6 +729,14 @@ struct WL {
         }
         gsim::enable_fault(gsim::F_STALE_READ, gsim::knob("stale", 0, 2) * 150);
         if (with_throw) gsim::enable_fault(gsim::F_THROW, 300);
+        if (gsim::param_int("oom", 0) && !std::is_same<Alloc, std::allocator<T>>::value) {
+            orc.oom_enabled = true;
+            gsim::enable_fault(gsim::F_ALLOC_FAIL, 40 + gsim::knob("oom_rate", 0, 2) * 60);
+        }
+        {
+            gsim::Oracle o;
+            orc.oom_enabled = false;  // (not while the list is set up)
+        }
         g = new G();
         long live0 = gsim::live_blocks();
         (void)live0;
@@ -712,6 +751,10 @@ struct WL {
                 note_push(val, 1, false);
             }
         }
+        {
+            gsim::Oracle o;
+            orc.oom_enabled = gsim::param_int("oom", 0) && !std::is_same<Alloc, std::allocator<T>>::value;
+        }
         if (freeze) run_freeze();
         else if (window) run_window();
         else {
@@ -719,6 +762,10 @@ struct WL {
             wl::run_program(b);
         }
         gsim::faults_off();
+        {
+            gsim::Oracle o;
+            orc.oom_enabled = false;
+        }
         std::vector<long>* fin;
         {
             gsim::Oracle o;
@@ -733,7 +780,12 @@ struct WL {
                 gsim::Oracle o;
                 *fin = f;
             }
-            check_history(*fin);
+            bool hit;
+            {
+                gsim::Oracle o;
+                hit = orc.oom_hit;
+            }
+            if (!hit) check_history(*fin);
         } else
             gsim::probe("rcu.destructor_reclaims");
         long destroyed_before = 0;
@@ -746,7 +798,7 @@ struct WL {
         // through the allocator monitor when it is in use)
         if constexpr (!std::is_same<Alloc, std::allocator<T>>::value) {
             gsim::Oracle o;
-            if (!orc.had_erase && c13 && final_read) {
+            if (!orc.had_erase && c13 && final_read && !orc.oom_hit) {
                 // constructs - destroys of *node* blocks: every element pushed must still be
                 // constructed.  Handle records are constructed/destroyed in pairs.
                 long live_constructed = 0;
